@@ -23,6 +23,30 @@ Theorem C25_steady : forall rate e p1 n1 p2 n2 o1 o2 e1 e2,
 Proof. exact steady_pair. Qed.
 Print Assumptions C25_steady.
 
+(* no spurious resynchronisation, over whole histories: as long as every frame of a stretch, scaled exactly from the
+   reference, lies inside [now - 5 s, now] (the clock runs steadily), the estimator never resynchronises and the
+   i-th output is the reference plus the exactly scaled offset — whatever the length of the stretch or the distance
+   from the reference (no intermediate overflow) *)
+Theorem C25_steady_stretch : forall rate e, 1 <= rate <= two32 -> inited e = true ->
+  forall inp, Forall (in_step rate e) inp ->
+  run rate e inp = map (fun c => ref_ntp e + scaled rate (fst c - ref_pts e)) inp.
+Proof. exact steady_stretch. Qed.
+Print Assumptions C25_steady_stretch.
+
+Theorem C25_no_spurious_resync : forall rate e pts now,
+  1 <= rate <= two32 -> inited e = true ->
+  let d := pts - ref_pts e in
+  in_int64 d -> in_int64 (scaled rate d) ->
+  now - max_diff <= ref_ntp e + scaled rate d <= now ->
+  resyncs rate e pts now = false /\ estimate rate e pts now = (e, ref_ntp e + scaled rate d).
+Proof. exact no_spurious_resync. Qed.
+Print Assumptions C25_no_spurious_resync.
+
+Theorem C25_steady_stretch_diff : forall rate x y, 0 < rate ->
+  Z.abs (rate * (scaled rate y - scaled rate x) - (y - x) * nanos) < 2 * rate.
+Proof. exact steady_stretch_diff. Qed.
+Print Assumptions C25_steady_stretch_diff.
+
 (* ... which is the frame timestamp difference exactly when the offset scales without remainder, and within
    less than one nanosecond of it otherwise *)
 Theorem C25_scaled_exact : forall rate x k, 0 < rate -> x * nanos = k * rate -> scaled rate x = k.
